@@ -62,4 +62,46 @@ theorem twoPhase_no_late_acquire (early : List Nat) (n : Nat) (rest : List Ev) (
 example : twoPhase [] [.acq 3, .acq 7, .commit, .rel 3, .rel 7] false [] = true := by decide
 example : twoPhase [] [.acq 3, .rel 3, .acq 7, .commit, .rel 7] false [] = false := by decide
 
+/-! ### check and act in one transaction -/
+
+open GoNfsd.Model.Locks in
+/-- Soundness of the name-event validator: if `insertsChecked` accepts the events of a
+    transaction, every insertion of a (directory, name) key is preceded IN THAT TRANSACTION by a
+    lookup of the same key (or the key was among those already looked up).  Together with two-phase
+    locking — the directory stays locked from the lookup to the commit — "the name did not exist"
+    still holds when the name is inserted; a lookup made in an earlier, aborted transaction of the
+    same request (lock released in between) does not count. -/
+theorem insertsChecked_sound (evs : List NameEv) (looked : List Nat) (h : insertsChecked evs looked = true) :
+    ∀ (pre post : List NameEv) (k : Nat), evs = pre ++ NameEv.insert k :: post →
+      k ∈ looked ∨ NameEv.lookup k ∈ pre := by
+  induction evs generalizing looked with
+  | nil => intro pre post k he; simp at he
+  | cons e rest ih =>
+    intro pre post k he
+    cases pre with
+    | nil =>
+      simp only [List.nil_append, List.cons.injEq] at he
+      obtain ⟨he1, _⟩ := he
+      subst he1
+      simp only [insertsChecked, Bool.and_eq_true, List.contains_iff_mem] at h
+      exact Or.inl (by simpa using h.1)
+    | cons p pre' =>
+      simp only [List.cons_append, List.cons.injEq] at he
+      obtain ⟨he1, he2⟩ := he
+      subst he1
+      cases e with
+      | lookup j =>
+        simp only [insertsChecked] at h
+        rcases ih (j :: looked) h pre' post k he2 with hm | hm
+        · simp only [List.mem_cons] at hm
+          rcases hm with hm | hm
+          · subst hm; exact Or.inr (by simp)
+          · exact Or.inl hm
+        · exact Or.inr (by simp [hm])
+      | insert j =>
+        simp only [insertsChecked, Bool.and_eq_true] at h
+        rcases ih looked h.2 pre' post k he2 with hm | hm
+        · exact Or.inl hm
+        · exact Or.inr (by simp [hm])
+
 end GoNfsd.Props.C03
